@@ -1,8 +1,8 @@
 SPECIFICATION Spec
 CONSTANTS
-  Config = "t3x"
-  T = 3
-  K = 1
+  Config = "inc"
+  T = 4
+  K = 2
   Thorough = TRUE
   RenderDepth = 6
   NestedRead = FALSE
@@ -28,6 +28,6 @@ INVARIANTS
 PROPERTIES
   LinearizableStep
   WritesOnlyUnderLock
-POSTCONDITION Emit
+POSTCONDITION NoEmit
 CHECK_DEADLOCK TRUE
 VIEW View
